@@ -296,7 +296,7 @@ func c09Run(rt *rapid.T, pid string, ops []string) {
 
 func TestC09_History(t *testing.T) {
 	nsSetT(t)
-	vk.Check(t, 150, func(rt *rapid.T) {
+	vk.Check(t, 800, func(rt *rapid.T) {
 		c09Run(rt, "C09", []string{"tun", "tun", "tun", "tun", "deliver", "deliver", "flush", "flush", "flush", "drop", "dup", "replay", "advance", "advance", "close", "rehandshake"})
 	})
 }
@@ -307,7 +307,7 @@ func TestC09_History(t *testing.T) {
 // tunnels of the certified identity.
 func TestC05_NetHistory(t *testing.T) {
 	nsSetT(t)
-	vk.Check(t, 150, func(rt *rapid.T) {
+	vk.Check(t, 600, func(rt *rapid.T) {
 		c09Run(rt, "C05", []string{"tun", "tun", "tun", "deliver", "deliver", "flush", "flush", "drop", "dup", "replay", "replay", "mutate", "mutate", "mutate", "advance", "close", "rehandshake"})
 	})
 }
